@@ -405,6 +405,13 @@ def run_case(ctx, i, rng):
     n = gen_ir.generate(rng, profile="edif", ndefs=rng.randint(3, 7), share=0.5, max_children=4, outside=(i % 2 == 0))
     if plant_twins(rng, n):
         ctx.count("netlists_with_planted_same_named_twins")
+    if i % 3 == 2:
+        # a definition built stand-alone under the EDIF policy and then added to this DEFAULT-policy netlist
+        g = gen_ir.graft_foreign_policy_definition(rng, n, "DEFAULT")
+        if g is not None:
+            n.top_instance.reference.create_child("graft_user", reference=g) if g.library is not None and rng.random() < 0.5 and \
+                g.library is n.top_instance.reference.library else None
+            ctx.count("netlists_with_a_definition_grafted_from_the_other_policy")
     st = gen_ir.shape_stats(n)
     me = sys.modules[__name__]
     c0 = canon.canon_netlist(n)
